@@ -48,10 +48,16 @@ def stub_hass(loop):
                           supports_response=lambda d, s: "none", async_services=lambda: {},
                           async_services_for_domain=lambda d: {})
     hass = SimpleNamespace(data={DOMAIN: {CONFIG_ENTRY: SimpleNamespace(data={})}}, loop=loop, services=svc,
+                           config=SimpleNamespace(path=lambda *a: "/nonexistent/pyscript_replay"),
+                           async_add_executor_job=lambda fn, *a: _executor_job(loop, fn, *a),
                            states=SimpleNamespace(table=states), bus=bus,
                            async_create_task=lambda c: loop.create_task(c),
                            async_create_background_task=lambda c, name=None: loop.create_task(c))
     return hass
+
+
+async def _executor_job(loop, fn, *a):
+    return fn(*a)
 
 
 async def boot(legacy=False):
@@ -888,6 +894,35 @@ async def c11_classdef_scope(w):
     await shutdown()
     return {"reproduced": res != 42, "observed": {"result": res, "error": err, "load_exception": repr(exc)},
             "expected": "g() returns 42: its local variable is still visible after the failed class definition"}
+
+
+async def c17_imports(w):
+    """Import restriction on real module names: every import form, allow_all_imports off.  Installed modules that are
+    NOT on the allow-list must fail with ModuleNotFoundError and bind nothing; allow-listed ones must import."""
+    from custom_components.pyscript.const import ALLOWED_IMPORTS
+    await boot_full(allow_all_imports=False)
+    forbidden = ["os", "asyncio", "reprlib", "timeit", "numbers", "json.decoder", "mathx_does_not_exist", "rex", "jsons", "subprocess"]
+    allowed = ["math", "json", "re", "datetime"]
+    bad = []
+    forms = ["import {m}", "import {m} as zz", "from {m} import *", "import math, {m}", "import json, re, {m}",
+             "exec('import {m}')", "exec('import math, {m}')"]
+    for m in forbidden:
+        for form in forms + (["from {m} import Repr"] if m == "reprlib" else []) + (["from {m} import JSONDecoder"] if m == "json.decoder" else []) \
+                + (["from {m} import Number"] if m == "numbers" else []) + (["from {m} import timeit"] if m == "timeit" else []):
+            src = form.format(m=m)
+            gctx, actx, exc = await run_source("file.c17_" + str(len(bad)) + m.replace(".", "_") + str(forms.index(form) if form in forms else 9), src)
+            leaked = [k for k in gctx.global_sym_table if k not in ("__name__", "math", "json", "re")]
+            if m in ALLOWED_IMPORTS:
+                continue
+            if not isinstance(exc, ModuleNotFoundError) or leaked:
+                bad.append({"source": src, "exception": repr(exc), "bound": leaked})
+    for m in allowed:
+        gctx, actx, exc = await run_source("file.c17ok_" + m, f"import {m}")
+        if exc is not None or m not in gctx.global_sym_table:
+            bad.append({"source": f"import {m}", "exception": repr(exc), "bound": list(gctx.global_sym_table)})
+    await shutdown()
+    return {"reproduced": bool(bad), "observed": bad[:4],
+            "expected": "ModuleNotFoundError and nothing bound for modules off the allow-list; allow-listed modules import"}
 
 
 SCENARIOS = {k: v for k, v in list(globals().items()) if asyncio.iscoroutinefunction(v) and k[0] == "c"}
